@@ -755,7 +755,15 @@ pub fn c15_pure(max_leaves: usize) -> WorldOutcome {
         _ => 1 + kernel::choose(G, max_leaves as u64) as usize,
     }
     .min(max_leaves.max(1));
-    let leaves: Vec<Vec<u8>> = (0..n_leaves).map(|i| format!("leaf-{i}-{}", kernel::choose(G, 3)).into_bytes()).collect();
+    // half of the trees have 32-byte leaves, like the slice roots under a block hash: a leaf then
+    // has the size of an inner node's value
+    let hash_sized = kernel::choose(G, 2) == 1;
+    let leaves: Vec<Vec<u8>> = (0..n_leaves)
+        .map(|i| {
+            let b = format!("leaf-{i}-{}", kernel::choose(G, 3)).into_bytes();
+            if hash_sized { alpenglow::crypto::hash(&b).as_ref().to_vec() } else { b }
+        })
+        .collect();
     let tree = PlainMerkleTree::new(leaves.iter());
     let root = tree.get_root();
     let height = tree.height();
@@ -782,10 +790,27 @@ pub fn c15_pure(max_leaves: usize) -> WorldOutcome {
         let mut index = idx;
         let mut r = root.clone();
         let mut p = proof.clone();
-        let class = match kernel::choose(G, 8) {
+        let class = match kernel::choose(G, 9) {
             0 => {
                 leaf.push(1);
                 "leaf"
+            }
+            8 => {
+                // an inner node's value presented as the leaf at the node's position, with the
+                // proof shortened accordingly (leaf / inner-node domain separation)
+                if height == 0 {
+                    continue;
+                }
+                let k = 1 + kernel::choose(G, height as u64) as usize;
+                let a = (idx >> k) << k;
+                if a + (1usize << k) > n_leaves || k > p.len() {
+                    continue;
+                }
+                let sub = PlainMerkleTree::new(leaves[a..a + (1usize << k)].iter());
+                leaf = sub.get_root().as_ref().to_vec();
+                index = idx >> k;
+                p = p[k..].to_vec();
+                "inner-node-as-leaf"
             }
             1 => {
                 // another existing leaf's data at this index
